@@ -48,7 +48,10 @@ package dns
 //@   opt opaque = sep nsep escd
 //@   requires mux != nil
 //@   assert at "return handler" noroot: !maphas(mux.z, ".")
-//@   exit rootwins: mux.z != nil && t == TypeDS && maphas(mux.z, ".") ==> ret0 == mapget(mux.z, ".")
+// (registered handlers are not nil: ServeDNS would panic on one)
+//@   assume at "handler = h" regnonnil: h != nil
+//@   assert at "return h@2" dsparent: t == TypeDS && handler != nil
+//@   loop 1 invariant dsnone: t == TypeDS && handler == nil ==> (forall p in 0..off :: (p == 0 || sep(q, p - 1)) ==> !maphas(mux.z, q[p:]))
 //@   assert at "if t != TypeDS {" hit: maphas(mux.z, q[off:]) && (off == 0 || sep(q, off - 1))
 //@   assert at "if t != TypeDS {" first: t != TypeDS ==> (forall p in 0..off :: (p == 0 || sep(q, p - 1)) ==> !maphas(mux.z, q[p:]))
 // a DS query belongs to the parent side of a zone cut: the match that is only recorded (and may be overridden by a
